@@ -28,6 +28,8 @@ type c13Byte struct {
 }
 
 func runC13(r *core.Run) {
+	defer racePass(r, "race-sequtil", "ReverseComplement(String), DNATo2Bit/From2Bit, Translate(ReadingFrames), CanonicalSubsequences, AminoName on one shared src")
+
 	L := core.Pick(r, 5, 8)
 	r.Bound("pack", fmt.Sprintf("all strings over aAcCgGtT of length 0..%d x 3 dst variants", L))
 	core.Clause(r, "pack-unpack", core.Opts{Rule: "every DNA string over aAcCgGtT up to the bound x 3 dst variants (nil / full capacity / spare capacity pre-filled with 0xEE); non-trivial = length >= 2"},
